@@ -191,7 +191,7 @@ Proof.
   - en AMain. unfold step_main. rewrite PC. reflexivity.
   - (* MExitPool *)
     destruct (all_lt (c_workers c) (fun w => is_dead (s_ws s w))) eqn:AD.
-    { en AMain. unfold step_main. rewrite PC, AD. reflexivity. }
+    { en AMain. unfold step_main. rewrite PC, AD. destruct (f_fin_free f); reflexivity. }
     apply all_lt_false in AD. destruct AD as (w & Hw & Hl).
     destruct (s_pool s) eqn:P.
     + destruct (s_ws s w) as [|t i j|h] eqn:E; try discriminate.
@@ -206,6 +206,12 @@ Proof.
     + en APool. unfold step_pool. rewrite P. reflexivity.
     + eapply (pool_broken_moves_live w); [congruence | assumption |].
       unfold is_live. rewrite Hl. reflexivity.
+  - (* MFreeStore: only a live holder of the store lock makes main wait *)
+    destruct (opt_cases (s_store s)) as [Co|[o Co]].
+    + en AMain. unfold step_main. rewrite PC, Co. reflexivity.
+    + destruct o as [| | |w|];
+        try (eapply store_holder_moves; eassumption);
+        en AMain; unfold step_main; rewrite PC, Co; reflexivity.
   - (* MUnproxyAcq *)
     destruct (opt_cases (s_store s)) as [Co|[o Co]]; [|eapply store_holder_moves; eassumption].
     en AMain. unfold step_main. rewrite PC, Co. reflexivity.
@@ -213,3 +219,70 @@ Proof.
   - en AMain. unfold step_main. rewrite PC. reflexivity.
 Qed.
 End Progress.
+
+(* With the forced release in the finally, a store lock whose owner died
+   does not stop the run either: the broken pool finishes its tear-down, main
+   reaches the release. *)
+Section ProgressDead.
+Variable f : facts.
+Variable c : cfg.
+Variable s : state.
+Hypothesis HI : Inv f c s.
+Hypothesis Hfree : f_fin_free f = true.
+Hypothesis Hnd : s_store s <> Some ODead.
+Hypothesis Hst : dead_ownerb s (s_store s) = true.
+
+Lemma dead_owner_means_exit_fired :
+  s_pool s <> PoolOk /\
+  exists t, t < ntasks c /\ s_futs s t = FBroken.
+Proof.
+  assert (Hp : s_pool s <> PoolOk).
+  { intros P. destruct (s_store s) as [[| | |w|]|] eqn:E; try discriminate.
+    - cbn in Hst. apply (i_store_w _ _ _ HI) in E.
+      destruct (s_ws s w) as [| |h] eqn:W; try discriminate. cbn in E. subst h.
+      exact (i_dead_hold _ _ _ HI P w W).
+    - congruence. }
+  split; [exact Hp|].
+  destruct (i_pool_fired _ _ _ HI Hp) as (Fd & p & P1 & P2).
+  destruct (i_fired _ _ _ HI Fd) as (p' & Q1 & Q2 & Q3).
+  rewrite P1 in Q1. inversion Q1; subst p'. rewrite P2 in Q3. eauto.
+Qed.
+
+Theorem progress_dead_owner : final s = false -> can_move f c s.
+Proof.
+  intros Hnf. destruct dead_owner_means_exit_fired as (Hp & t & Ht & Hb).
+  assert (Hns : succ_pc (s_pc s) = false).
+  { destruct (succ_pc (s_pc s)) eqn:Sc; [|reflexivity].
+    rewrite (i_succ _ _ _ HI Sc t Ht) in Hb. discriminate. }
+  assert (Hnfr : freed_pc (s_pc s) = false).
+  { destruct (freed_pc (s_pc s)) eqn:Fr; [|reflexivity].
+    rewrite (i_freed _ _ _ HI Hfree Fr) in Hst. discriminate. }
+  destruct (s_pc s) eqn:PC; try discriminate;
+    try (unfold final in Hnf; rewrite PC in Hnf; discriminate).
+  - en AMain. unfold step_main. rewrite PC. reflexivity.
+  - en AMain. unfold step_main. rewrite PC.
+    destruct (Nat.ltb k (ntasks c)); [destruct (s_pool s)|]; reflexivity.
+  - en AMain. unfold step_main. rewrite PC. reflexivity.
+  - en AMain. unfold step_main. rewrite PC. reflexivity.
+  - (* MWait: a broken future is there *)
+    en AMain. unfold step_main. rewrite PC.
+    destruct (first_exc (ntasks c) (s_futs s)); [reflexivity|].
+    assert (A : all_lt (ntasks c) (fun t => negb (is_broken (s_futs s t))) = false).
+    { destruct (all_lt _ _) eqn:E; [|reflexivity]. rewrite all_lt_true in E.
+      specialize (E t Ht). cbv beta in E. rewrite Hb in E. discriminate. }
+    rewrite A. reflexivity.
+  - destruct ph; discriminate.
+  - destruct ph; discriminate.
+  - destruct ph; discriminate.
+  - destruct ph; discriminate.
+  - (* MExitPool *)
+    destruct oe; [|discriminate].
+    destruct (all_lt (c_workers c) (fun w => is_dead (s_ws s w))) eqn:AD.
+    { en AMain. unfold step_main. rewrite PC, AD. rewrite Hfree. reflexivity. }
+    apply all_lt_false in AD. destruct AD as (w & Hw & Hl).
+    apply (pool_broken_moves_live f c s w Hp Hw). unfold is_live. rewrite Hl. reflexivity.
+  - (* MFreeStore *)
+    en AMain. unfold step_main. rewrite PC.
+    destruct (s_store s) as [[| | |w|]|]; try discriminate; reflexivity.
+Qed.
+End ProgressDead.
